@@ -143,6 +143,13 @@ class Engine(GenericConcreteEngine[Callable[..., Any]]):
                             # have provided; keep the existing operation.
                             replacement = tree.operation
                         result = replacement._finish_apply(upstream)
+                        if not done and not result.columns <= tree.columns:
+                            # The first operation was only partly inserted, so
+                            # `upstream` may still carry columns that this
+                            # (possibly dropped) operation had removed.
+                            result = Projection(frozenset(result.columns & tree.columns))._finish_apply(
+                                result
+                            )
                     else:
                         result = tree
                     return (
